@@ -123,3 +123,16 @@ contract(M, 'pda_words_up_to_n', {'P': 'PDA', 'n': 'Int'}, returns='Set[Word]', 
          theories=['word', 'wordx', 'pda', 'pdax'], props=['C02', 'C19'],
          note='W[c] only holds words after which configuration c is reachable (soundness, every limit); when no closure computation hits the limit it holds all of them '
               '(lemma reachP-step-pw: the configurations after w.a are the closures of the a-successors of the configurations after w, one configuration at a time)')
+
+# ---------------------------------------------------------------------------------------------- C15: a step of the PDA simulation, searched backwards
+contract(M, 'pda_find_transition', {'P': 'PDA', 'R': SC, 'a': 'Symbol', 'target': 'PDAState'}, returns='Opt[PDAState]',
+         ensures=['implies(result is not None, the(result) in R and pstep(P, the(result), a, target))',
+                  'implies(result is None, all(not pstep(P, c, a, target) for c in R))'],
+         loops={1: {'ghost': 'doneR', 'invariant': ['all(not pstep(P, c, a, target) for c in doneR)']},
+                2: {'ghost': 'doneK', 'invariant': ['src in R', 'all(not pstep(P, c, a, target) for c in doneR)',
+                                                  'all(implies(k[0] == src.q and k[1] == a and canpop(P, src.stack, k[2]), PDAState(t[0], poppush(P, src.stack, k[2], t[1])) != target) for k in doneK for t in P.delta[k])']},
+                3: {'ghost': 'doneT', 'invariant': ['src in R', 'src.q == p', 'a == a1', '(p, a1, u) in P.delta', 'Q1 == P.delta[(p, a1, u)]', 'all(not pstep(P, c, a, target) for c in doneR)',
+                                                  'all(implies(k[0] == src.q and k[1] == a and canpop(P, src.stack, k[2]), PDAState(t[0], poppush(P, src.stack, k[2], t[1])) != target) for k in doneK for t in P.delta[k])',
+                                                  'all(implies(canpop(P, src.stack, u), PDAState(t[0], poppush(P, src.stack, u, t[1])) != target) for t in doneT)']}},
+         theories=['pda'], props=['C15', 'C19'],
+         note='a configuration of R with the required move into the target, or None when there is none')
